@@ -24,6 +24,7 @@ import textwrap as _textwrap
 
 
 COVERAGE = None     # set of (module, function, line) evaluated; filled when tools/coverage.py asks for it
+BRANCHES = None     # set of (module, line, outcome) of if-statements / conditional expressions evaluated
 
 
 class Unsupported(Exception):
@@ -836,6 +837,8 @@ class Interp:
         w = self.mod.world
         if w.trace is not None:
             w.trace.append((self.mod.name, st.lineno, taken))
+        if BRANCHES is not None:
+            BRANCHES.add((self.mod.name, st.lineno, bool(taken)))
 
     def exec_stmt(self, st, env):
         self._tick(st)
